@@ -5,9 +5,9 @@
 # on the current tree. The model says every assertion holds for them; the real library must agree.
 cd "$(dirname "$0")/.."
 bad=0
-for f in validate/schema_cases/case*.json; do
+for f in $(pwd)/validate/schema_cases/case*.json; do
   out=$(./bin/gosym -replay $f 2>&1)
-  if echo "$out" | grep -q "ASSERT-FAILED\|panic:\|FAIL"; then echo "DISAGREES: $f"; echo "$out" | tail -5; bad=1; fi
+  if echo "$out" | grep -q "ASSERT-FAILED\|ASSUME-FALSE\|panic:\|FAIL"; then echo "DISAGREES: $f"; echo "$out" | tail -5; bad=1; fi
 done
 [ $bad = 0 ] && echo "schema model agrees with encoding/asn1 on $(ls validate/schema_cases | wc -l) shapes"
 exit $bad
